@@ -31,7 +31,8 @@ def cases(tier, seed):
         E = tsspace.arg_ts(a).num_edges
         pats = tsspace.mutation_patterns(E, "Ms")
         pats = pats[:3] if tier == "quick" else pats
-        for (pn, pat), X in itertools.product(pats, xdecor.X_VARIANTS):
+        xs = xdecor.X_VARIANTS if not (tier == "quick" and "renumber" in a) else ["plain", "rich"]
+        for (pn, pat), X in itertools.product(pats, xs):
             for dip in (False, "rich") if a["n"] % 2 == 0 else (False,):
                 out.append({"arg": a, "mut": pat, "X": X, "dip": dip, "above_root": int(pn == "mod3"), "recurrent": pn == "mod3b"})
                 if X in ("plain", "rich") and pn == "ones" and not dip:
